@@ -497,6 +497,20 @@ def betweenArrays (c1 c2 cr : Codec V) (f : V → V → Except Err V) (d1 d2 : B
   | .error e => .error e
   | .ok (nd, fails) => if fails ≠ 0 then .error .value else .ok nd
 
+/-- `__rsub__` (array_.py:722-725): `i - A` is computed as `(-A) + i`, two full passes. -/
+def rsub (c : Codec V) (fneg fadd : V → Except Err V) (d : Bits) : Except Err Bits :=
+  match applyOp c c fneg d with
+  | .error e => .error e
+  | .ok nd => applyOp c c fadd nd
+
+/-- `_eq_ne` with an Array operand (array_.py:760-764): `other = self.__class__(self.dtype, other)` — i.e.
+    `extend(other)` on an empty Array of our dtype, which refuses another dtype — then element-wise into `bool`. -/
+def eqNeArrays (c cb : Codec V) (f : V → V → Except Err V) (d : Bits) (c2 : Codec V) (d2 : Bits) : Except Err Bits :=
+  let conv := extendArr c [] c2 d2
+  match conv.res with
+  | .error e => .error e
+  | .ok _ => betweenArrays c c cb f d conv.data
+
 end
 
 /-! ## Histories: the operations of the property as data, the Array step (ALG) and the list step (SPEC) -/
@@ -601,6 +615,11 @@ def extend_array_itemsize (other : Option (String × Nat)) (native : Nat) : Bool
   match other with
   | some (_, l) => l != native
   | none => false
+
+/-- `k - A` goes through `-A`: it raises whenever the negation of some item does not fit (every non-zero item of an
+    unsigned Array), whether or not `k - item` fits. -/
+def rsub_negation {V} (c : Codec V) (fneg : V → Except Err V) (d : Bits) : Bool :=
+  (items c d).any fun v => match buildResult c (fneg v) with | .ok _ => false | .error _ => true
 
 /-- Operations on which the property fixes the behaviour and the pinned tree is not known to deviate: outside the
     `insert_negative` and `count_nonnumeric` regions; for multi-value mutators every value fits (otherwise the
@@ -903,10 +922,7 @@ def stepOp (s : St) (f : List String) : Option (String × St × Bool) :=
   | ["rop", op, k] => (valOfStr? k).map fun k =>
       if op = "sub" then
         -- __rsub__ (array_.py:722-725): neg, then add
-        let r := match applyOp c c (pyUn "neg") d with
-          | .error e => .error e
-          | .ok nd => applyOp c c (scalarFn "add" k false) nd
-        (arrTok c r, s, false)
+        (arrTok c (rsub c (pyUn "neg") (scalarFn "add" k false) d), s, false)
       else (arrTok c (applyOp c c (scalarFn op k false) d), s, false)
   | ["iop", op, k] => (valOfStr? k).bind fun k => mut1 (applyOpInplace c (scalarFn op k false) d)
   | ["uop", op] => some (arrTok c (applyOp c c (pyUn op) d), s, false)
@@ -928,10 +944,7 @@ def stepOp (s : St) (f : List String) : Option (String × St × Bool) :=
       | .ok d2 =>
         if op = "eq" ∨ op = "ne" then
           -- _eq_ne (array_.py:760-764): `other = Array(self.dtype, other)` first — extend() refuses another dtype
-          let conv := extendArr c [] c2 d2
-          match conv.res with
-          | .error _ => some ("e", s, false)
-          | .ok _ => some (arrTok boolCodec (betweenArrays c c boolCodec (pyBinV op) d conv.data), s, false)
+          some (arrTok boolCodec (eqNeArrays c boolCodec (pyBinV op) d c2 d2), s, false)
         else if isCmp op then
           some (arrTok boolCodec (betweenArrays c c2 boolCodec (pyBinV op) d d2), s, false)
         else
